@@ -245,6 +245,19 @@ def unnest_order(rep, tier):
           'unnestings_shuffled': [[nm, ms, comb] for nm, ms, comb in shuffled], 'order_2': b,
           'law': 'the order of the UNNEST items of the FROM list does not depend on the order of the `in` conjuncts',
           'how': 'props.unnesttie.real_sort (RuleStructure.SortUnnestings)'})
+  # the theorem about this order (C07_from_order_independent_of_conjunct_order) is about Core/Unnest.v: the model and
+  # the real function must agree on the same inputs
+  tie = unnesttie.run_tie(r, 150 if tier == 'quick' else 5000)
+  rep.coverage['unnest_order_tie'] = {k: v for k, v in tie.items() if k != 'mismatches'}
+  if tie['mismatches'] or tie['error']:
+    m = (tie['mismatches'] or [None])[0]
+    if m:
+      rep.violation('unnest-order-differs-from-model', dict(
+          m, law='RuleStructure.SortUnnestings orders the UNNEST items as the model Core/Unnest.v does (smallest ready name '
+                 'first, dependencies through aggregating expressions included), so that the order does not depend on the '
+                 'order of the `in` conjuncts', how='props.unnesttie.real_sort on these unnestings'))
+    else:
+      rep.violation('tie-unnest', {'broken': 'Core/Unnest.v could not be evaluated: %s' % str(tie['error'])[-300:]}, no_input=True)
   rep.coverage['unnest_order_runs'] = 2 * n
   rep.coverage['evaluations'] = rep.coverage.get('evaluations', 0) + 2 * n
 
